@@ -372,3 +372,193 @@ def mkctx(v, w, base=None):
     if not (isinstance(w, str) and w == MISSING):
         c["w"] = w
     return c
+
+
+# ----------------------------------------------------------------------------------------------
+# running the real implementation, judging, attributing
+# ----------------------------------------------------------------------------------------------
+_RIB = {}
+RENDERS = [0]
+
+
+def ribosome(strict):
+    r = _RIB.get(strict)
+    if r is None:
+        r = Ribosome(strict=strict, silent=True)
+        for name, seq in REGISTRY.items():
+            r.register_template(mRNA(sequence=seq, name=name))
+        _RIB[strict] = r
+    return r
+
+
+def observe(tstr, ctx, strict=False):
+    """-> ('ok', sequence, warnings) | ('raise', ExcName, message)"""
+    RENDERS[0] += 1
+    try:
+        p = ribosome(strict).synthesize(tstr, **ctx)
+    except Exception as e:  # noqa: BLE001
+        return ("raise", type(e).__name__, str(e))
+    return ("ok", p.sequence, list(p.warnings))
+
+
+def expect(tstr, ctx):
+    """-> Ref, or None when the documentation leaves the case unspecified."""
+    r = Ref(REGISTRY, ctx)
+    try:
+        r.render(parse(tstr), ctx, "top")
+    except Unspecified:
+        return None
+    return r
+
+
+def bad(tpl, ctx):
+    """None = unspecified; False = implementation output is the reference expansion; else a description."""
+    tstr = emit(tpl)
+    ref = expect(tstr, ctx)
+    if ref is None:
+        return None
+    got = observe(tstr, ctx)
+    if got[0] == "raise":
+        return ("raise", got[1], "raised %s: %s" % (got[1], got[2]))
+    alts = ref.alternatives()
+    if got[1] in alts:
+        return False
+    return ("diff", None, "expected %r, observed %r" % (alts[0], got[1]))
+
+
+def seg_kind(s):
+    k = s[0]
+    if k == "def":
+        return "default-empty" if s[2] == "" else "default"
+    if k == "filt":
+        return "filter:" + s[2]
+    if k == "if":
+        return "if-else" if s[3] is not None else "if"
+    if k == "each":
+        return "each:" + "+".join("text" if a[0] == T else ATOM_LABEL.get(a[1], a[1]) for a in s[2])
+    if k == "inc":
+        return "include" if s[1] in REG_AST else "include-unknown"
+    return {"text": "text", "var": "variable", "opt": "optional"}[k]
+
+
+def channel(s, meta):
+    k = s[0]
+    if k == "def":
+        return "default-literal" if meta["slot"] == "default" and s[2] == meta["payload"] else "defaulted"
+    if k == "each":
+        a = s[2][0]
+        if a[0] == V and a[1] in (".", "item"):
+            return "loop-item"
+        if a[0] == V and a[1] == "k":
+            return "dict-field"
+        return "simple"
+    return {"var": "simple", "opt": "optional", "filt": "filtered", "if": "simple", "inc": "include-output",
+            "text": "template-text"}[k]
+
+
+def neutral(x, payload):
+    if isinstance(x, str):
+        return NEUTRAL if x == payload else x
+    if isinstance(x, (list, tuple)):
+        return type(x)(neutral(y, payload) for y in x)
+    if isinstance(x, dict):
+        return {k: neutral(y, payload) for k, y in x.items()}
+    return x
+
+
+def attribute(tpl, ctx, meta):
+    """Keys for a failing (tpl, ctx): every single segment / loop atom / included child is re-run alone.
+    meta None (phase 1) or {'slot','construct','payload'} (phase 2)."""
+    keys = []
+
+    def unit(seg, label_prefix=""):
+        b = bad((seg,), ctx)
+        if not b:
+            return False
+        if meta is not None:
+            tb = bad(neutral((seg,), meta["payload"]), neutral(ctx, meta["payload"]))
+            if tb is False:
+                keys.append(("reinterpreted:%s%s:%s" % (label_prefix, channel(seg, meta), meta["construct"]),
+                             "segment %r: %s" % (emit_seg(seg), b[2])))
+                return True
+        if b[0] == "raise":
+            keys.append(("raises:%s:%s" % (b[1], seg_kind(seg)), "segment %r: %s" % (emit_seg(seg), b[2])))
+        else:
+            keys.append(("output-mismatch:%s" % seg_kind(seg), "segment %r: %s" % (emit_seg(seg), b[2])))
+        return True
+
+    def walk(segs):
+        for seg in segs:
+            if seg[0] == "each" and len(seg[2]) > 1:
+                hit = [unit(("each", seg[1], (a,))) for a in seg[2]]
+                if not any(hit) and bad((seg,), ctx):
+                    keys.append(("output-mismatch:each:cross-atom", "segment %r fails only as a whole" % emit_seg(seg)))
+            elif seg[0] == "inc" and seg[1] in REG_AST:
+                child = REG_AST[seg[1]]
+                if bad(child, ctx):
+                    n = len(keys)
+                    walk(child)
+                    if len(keys) == n:
+                        keys.append(("output-mismatch:include-child:cross-segment", "child %r fails only as a whole" % seg[1]))
+                else:
+                    unit(seg)
+            else:
+                unit(seg)
+
+    walk(tpl)
+    if not keys:
+        kinds = "+".join(sorted({seg_kind(s).split(":")[0] for s in tpl}))
+        if meta is not None and bad(neutral(tpl, meta["payload"]), neutral(ctx, meta["payload"])) is False:
+            keys.append(("reinterpreted:cross-segment:%s" % meta["construct"], "no single segment reproduces it (%s)" % kinds))
+        else:
+            keys.append(("output-mismatch:cross-segment:%s" % kinds, "no single segment reproduces it"))
+    out, seen = [], set()
+    for k, w in keys:
+        if k not in seen:
+            seen.add(k)
+            out.append((k, w))
+    return out
+
+
+def judge(case):
+    """case: {'phase': 1|2|'strict', 'tpl', 'ctx', 'meta'?} -> ('skip'|'ok', [(key, what)], outcome class)"""
+    tpl, ctx = case["tpl"], case["ctx"]
+    tstr = emit(tpl)
+    ref = expect(tstr, ctx)
+    if ref is None:
+        return "skip", [], None
+    alts = ref.alternatives()
+    viol = []
+    desc = "template %r ctx %r: " % (tstr, ctx)
+    if case["phase"] == "strict":
+        got = observe(tstr, ctx, strict=True)
+        needed = sorted(set(ref.needed_unbound))
+        if got[0] == "raise":
+            if got[1] != "ValueError":
+                viol.append(("strict-raises:%s" % got[1], desc + "strict mode raised %s: %s" % (got[1], got[2])))
+            elif not static_unbound(parse(tstr), REGISTRY, ctx):
+                m = re.match(r"Missing required variable: (\S+)\Z", got[2])
+                name = m.group(1) if m else None
+                cls = "other" if name is None or name in ctx else ("loop-local" if name in LOOP_LOCALS else "dict-field")
+                viol.append(("strict-raises-bound:%s" % cls, desc + "every referenced variable is bound (loop-locals "
+                             "included) but strict mode raised %r" % got[2]))
+            return "ok", viol, ("strict", "raise", bool(needed))
+        if needed:
+            viol.append(("strict-no-raise:%s" % needed[0][1], desc + "plain variable %r is needed and unbound but strict "
+                         "mode returned %r" % (needed[0][0], got[1])))
+        elif got[1] not in alts and got[1] != observe(tstr, ctx)[1:2][0]:
+            viol.append(("strict-output-differs", desc + "strict output %r, expected %r" % (got[1], alts[0])))
+        return "ok", viol, ("strict", "ok", len(got[2]) > 0)
+    got = observe(tstr, ctx)
+    meta = case.get("meta")
+    if got[0] == "raise" or got[1] not in alts:
+        for k, w in attribute(tpl, ctx, meta):
+            viol.append((k, desc + w + " | whole template: " + ("raised %s" % got[2] if got[0] == "raise" else
+                                                                 "expected %r, observed %r" % (alts[0], got[1]))))
+        return "ok", viol, (case["phase"], got[0], "mismatch")
+    for name, where in sorted(set(ref.needed_unbound)):
+        if not any(re.search(r"(?<!\w)%s(?!\w)" % re.escape(name), w) for w in got[2]):
+            viol.append(("missing-warning:%s" % where, desc + "plain variable %r is needed and unbound, warnings %r"
+                         % (name, got[2])))
+    return "ok", viol, (case["phase"], len(ref.needed_unbound) > 0, len(got[2]) > 0, alts.index(got[1]),
+                        got[1] != tstr)
